@@ -218,8 +218,7 @@ Proof. destruct l; [congruence|reflexivity]. Qed.
 Definition call_ok (st : cstate) (c : call) (st' : cstate) (secs : list section) : Prop :=
   chain (cur st) secs (cur st')
   /\ map sec_end secs = requested_ends st c
-  /\ (is_rel_bezier c = false -> is_arc c = false -> secs <> [] ->
-      lctl st' = penult (sec_ctrl (last secs dsec)))
+  /\ (is_arc c = false -> secs <> [] -> lctl st' = penult (sec_ctrl (last secs dsec)))
   /\ (is_smooth c = true -> smooth_chain (lctl st) secs)
   /\ (forall e v, c = CArc e v -> lctl st' = padd (cur st') v).
 
@@ -445,7 +444,7 @@ Theorem section_call_lemma : forall st c st' secs,
 Proof.
   intros st c st' secs Hwf H. unfold call_ok.
   destruct c as [rel p|rel ps|rel x|rel xs|rel y|rel ys|rel ps|rel ps|rel ps|rel p|rel ps|rel ps
-                 |rel cycle ps hob|e v]; cbn [run_call is_rel_bezier is_smooth is_arc requested_ends] in *.
+                 |rel cycle ps hob|e v]; cbn [run_call is_smooth is_arc requested_ends] in *.
   - (* segment *) inversion H; subst. cbn. repeat split; try congruence.
   - (* segments *)
     destruct ps as [|p tl]; [discriminate|].
@@ -508,11 +507,7 @@ Proof.
     repeat split; try discriminate.
     + (* requested end *)
       f_equal. apply last_cons_map. destruct ps; [cbn in Hwf; lia|discriminate].
-    + (* last_ctrl: only in absolute mode *)
-      intros Hb _ _. destruct rel; [discriminate|].
-      rewrite map_off_false. cbn [last sec_ctrl]. unfold penult. cbn [length].
-      replace (S (length ps) - 2)%nat with (S (length ps - 2)) by lia.
-      reflexivity.
+      (* last_ctrl = ctrl[count-2], relative or absolute: closed by `split` (convertible) *)
   - (* interpolation *)
     destruct Hwf as [Hlen Hne].
     set (pts := map (off rel (cur st)) ps ++ (if cycle then [cur st] else [])) in *.
@@ -572,23 +567,22 @@ Proof.
     + rewrite map_app, Hre, Hre2. reflexivity.
 Qed.
 
-(* main result 3c: last_ctrl is what the next smooth section needs.  After any call other than a
-   relative `bezier`, a smooth call starts with the reflection, about the junction, of the
+(* main result 3c: last_ctrl is what the next smooth section needs.  After any call other than an
+   arc, a smooth call starts with the reflection, about the junction, of the
    penultimate control point of the section before it: c1 - c0 = e - penult, i.e. the tangent is
    continuous. *)
 Theorem smooth_continuation_lemma : forall st c1 st1 s1 c2 st2 s2,
-  wf_call c1 -> wf_call c2 -> is_rel_bezier c1 = false -> is_arc c1 = false ->
-  is_smooth c2 = true ->
+  wf_call c1 -> wf_call c2 -> is_arc c1 = false -> is_smooth c2 = true ->
   run_call st c1 = Some (st1, s1) -> run_call st1 c2 = Some (st2, s2) ->
   s1 <> [] -> s2 <> [] ->
   let prev := last s1 dsec in let next := hd dsec s2 in
   sec_start next = sec_end prev
   /\ nth 1 (sec_ctrl next) pzero = reflect (sec_end prev) (penult (sec_ctrl prev)).
 Proof.
-  intros st c1 st1 s1 c2 st2 s2 W1 W2 Hb Ha Hs E1 E2 N1 N2 prev next.
+  intros st c1 st1 s1 c2 st2 s2 W1 W2 Ha Hs E1 E2 N1 N2 prev next.
   destruct (section_call_lemma _ _ _ _ W1 E1) as (Hc1 & _ & Hl1 & _).
   destruct (section_call_lemma _ _ _ _ W2 E2) as (Hc2 & _ & _ & Hs2 & _).
-  specialize (Hl1 Hb Ha N1). specialize (Hs2 Hs).
+  specialize (Hl1 Ha N1). specialize (Hs2 Hs).
   pose proof (chain_end_last _ _ _ N1 Hc1) as He.
   destruct s2 as [|n tl]; [congruence|].
   cbn [hd] in next. subst next prev.
@@ -608,20 +602,26 @@ Proof.
   apply bezier_endpoints_lemma. discriminate.
 Qed.
 
-(* F17: `Curve::bezier` in relative mode stores points[count-2] without the reference point.
-   From (100,100), bezier([(1,0);(2,1);(3,0)], relative) leaves last_ctrl = (2,1), while the
-   penultimate control point of the section it appended is (102,101). *)
-Theorem bezier_last_ctrl_relative_refuted :
-  exists st ps st' secs,
-    wf_call (CBezier true ps) /\ run_call st (CBezier true ps) = Some (st', secs)
-    /\ lctl st' = (2, 1) /\ penult (sec_ctrl (last secs dsec)) = (100 + 2, 100 + 1)
-    /\ ~ pteq (lctl st') (penult (sec_ctrl (last secs dsec))).
+(* F17 (fixed by 7a14b8c): `Curve::bezier` stores ctrl[count-2], the absolute penultimate control
+   point, in relative mode too: last_ctrl is what a following smooth section needs. *)
+Theorem bezier_last_ctrl_relative_lemma : forall st ps st' secs,
+  wf_call (CBezier true ps) -> run_call st (CBezier true ps) = Some (st', secs) ->
+  secs <> [] /\ lctl st' = penult (sec_ctrl (last secs dsec)).
 Proof.
-  exists (mkst (100, 100) (100, 100)), [(1, 0); (2, 1); (3, 0)].
-  eexists. eexists. split; [cbn; lia|]. split; [reflexivity|].
-  split; [reflexivity|]. split; [reflexivity|].
-  intros [H _]. vm_compute in H. discriminate.
+  intros st ps st' secs W H.
+  destruct (section_call_lemma _ _ _ _ W H) as (_ & _ & Hl & _).
+  assert (N : secs <> []).
+  { cbn [run_call] in H. destruct (length ps <? 2)%nat; [discriminate|]. inversion H. discriminate. }
+  split; [exact N|]. apply Hl; [reflexivity|exact N].
 Qed.
+
+(* regression example: the input of the former defect.  From (100,100), bezier([(1,0);(2,1);(3,0)],
+   relative) leaves last_ctrl = (102,101) (it was (2,1)). *)
+Example bezier_last_ctrl_relative_example :
+  exists st' secs,
+    run_call (mkst (100, 100) (100, 100)) (CBezier true [(1, 0); (2, 1); (3, 0)]) = Some (st', secs)
+    /\ lctl st' = (102, 101) /\ cur st' = (103, 100).
+Proof. eexists. eexists. split; [vm_compute; reflexivity|]. split; reflexivity. Qed.
 
 (* non-vacuity of the section theorems: a relative cubic, a smooth cubic, a smooth quadratic and an
    absolute general Bezier in sequence are well formed and run *)
@@ -646,31 +646,32 @@ Proof.
     apply Qle_bool_iff in E. exfalso. eapply Qlt_not_le; eassumption.
 Qed.
 
-Theorem step_rule_nan_b_lemma : forall dc d2c tol,
-  step_rule_nan_b dc d2c tol = true <-> step_rule_nan_condition dc d2c tol.
+Theorem step_rule_clamp_b_lemma : forall dc d2c tol,
+  step_rule_clamp_b dc d2c tol = true <-> step_rule_clamp_condition dc d2c tol.
 Proof.
-  intros dc d2c tol. unfold step_rule_nan_b, step_rule_nan_condition. cbv zeta.
+  intros dc d2c tol. unfold step_rule_clamp_b, step_rule_clamp_condition. cbv zeta.
   rewrite !andb_true_iff, !negb_true_iff, !Qle_bool_false, Qle_bool_iff. tauto.
 Qed.
 
-(* F11.  The step rule is not defined for every control polygon and tolerance: at t = 1/2 of the
-   hairpin (0,0) (1,0) (1,0.001) (0,0.001) with tolerance 0.01 the argument of acos is below -1
-   (curvature * tolerance = 26667), and a curve smaller than the tolerance whose control
-   directions span less than a quarter turn -- inside the class the property lists -- has it
-   already at t = 0. *)
-Theorem step_rule_nan_refuted :
+(* F11 (fixed by 66f871b).  Regression inputs of the former defect: at t = 1/2 of the hairpin
+   (0,0) (1,0) (1,0.001) (0,0.001) with tolerance 0.01 (curvature * tolerance = 26667), and at
+   t = 0 of a curve smaller than the tolerance whose control directions span less than a quarter
+   turn, the step rule takes the clamp branch -- where the old code evaluated acos below -1 and
+   appended a NaN vertex.  That the angle is defined in both branches for every input is
+   step_rule_defined_lemma (ArcBound.v). *)
+Example step_rule_clamp_regression_example :
   (exists ctrl tol t, length ctrl = 4%nat /\ 0 < tol /\ 0 <= t <= 1 /\
-     step_rule_nan_condition (decasteljau t (deriv1 ctrl)) (decasteljau t (deriv2 ctrl)) tol)
+     step_rule_clamp_condition (decasteljau t (deriv1 ctrl)) (decasteljau t (deriv2 ctrl)) tol)
   /\ (exists ctrl tol, length ctrl = 4%nat /\ 0 < tol /\ ctrl_span_lt_quarter ctrl = true /\
-     step_rule_nan_condition (decasteljau 0 (deriv1 ctrl)) (decasteljau 0 (deriv2 ctrl)) tol).
+     step_rule_clamp_condition (decasteljau 0 (deriv1 ctrl)) (decasteljau 0 (deriv2 ctrl)) tol).
 Proof.
   split.
   - exists [(0, 0); (1, 0); (1, 1 # 1000); (0, 1 # 1000)], (1 # 100), (1 # 2).
     split; [reflexivity|]. split; [reflexivity|]. split; [split; discriminate|].
-    apply step_rule_nan_b_lemma. vm_compute. reflexivity.
+    apply step_rule_clamp_b_lemma. vm_compute. reflexivity.
   - exists [(0, 0); (1 # 1000, 0); (2 # 1000, 1 # 1000); (3 # 1000, 3 # 1000)], (1 # 100).
     split; [reflexivity|]. split; [reflexivity|]. split; [vm_compute; reflexivity|].
-    apply step_rule_nan_b_lemma. vm_compute. reflexivity.
+    apply step_rule_clamp_b_lemma. vm_compute. reflexivity.
 Qed.
 
 (* ================================================================== exact distance test *)
